@@ -133,7 +133,8 @@ def compare_one(case_label, kw, fmt, rop, emit, source, replay_case):
             if n not in got:
                 problems.append(("scalar-missing-in-file", n))
             elif not cells_equal(canon_cell(mem[n].value), canon_cell(got[n]) if got[n] is None else got[n]):
-                problems.append(("scalar-value", f"{n}: file {got[n]!r} vs returned {mem[n].value!r}"))
+                kind_ = "scalar-empty-string-written-as-null" if mem[n].value == "" and got[n] is None else "scalar-value"
+                problems.append((kind_, f"{n}: file {got[n]!r} vs returned {mem[n].value!r}"))
         if set(got) - set(scn):
             problems.append(("scalar-extra-in-file", str(sorted(set(got) - set(scn)))))
     bucket = f"{source}/{fmt}/rop={rop}/{'+'.join(sorted(types))}/scalars={bool(scn)}" if nonempty or scn else "trivial-empty"
@@ -148,7 +149,7 @@ def compare_one(case_label, kw, fmt, rop, emit, source, replay_case):
 GEN_COMPS = [("Id_1", "Integer", "Identifier", False), ("Id_2", "String", "Identifier", False),
              ("Me_1", "Number", "Measure", True), ("Me_2", "Integer", "Measure", True), ("Me_3", "String", "Measure", True),
              ("Me_4", "Boolean", "Measure", True), ("Me_5", "Date", "Measure", True), ("Me_6", "Time_Period", "Measure", True),
-             ("Me_7", "Time", "Measure", True), ("Me_8", "Duration", "Measure", True)]
+             ("Me_7", "Time", "Measure", True), ("Me_8", "Duration", "Measure", True), ("Me_9", "Time_Period", "Measure", True)]
 STR_POOL = ["", "a", 'say "hi"', "comma,inside", "line\nbreak", " lead", "trail ", "ñandú", "日本語", "null", "NA", "'q'", "semi;colon", "tab\there", "x" * 300]
 
 
@@ -161,11 +162,13 @@ def gen_case(rng):
                      gen.rvalue(rng, "Number", 0.2), gen.rvalue(rng, "Integer", 0.2),
                      None if rng.random() < 0.2 else rng.choice(STR_POOL), gen.rvalue(rng, "Boolean", 0.2),
                      gen.rvalue(rng, "Date", 0.2, gen.POOLS["Date"] + ["2020-01-15 10:30:00"]), gen.rvalue(rng, "Time_Period", 0.2),
-                     gen.rvalue(rng, "Time", 0.2), gen.rvalue(rng, "Duration", 0.2)))
+                     gen.rvalue(rng, "Time", 0.2), gen.rvalue(rng, "Duration", 0.2), gen.rvalue(rng, "Time_Period", 0.4)))
     script = rng.choice([
         "DS_r <- DS_1;", "DS_r <- DS_1; sc_r <- 1.5 + 2; sc_s <- \"te,xt\";", "DS_a := DS_1[keep Me_1, Me_3]; DS_r <- DS_a; DS_b <- DS_1[filter Me_4];",
-        "DS_r <- DS_1[calc Me_9 := Me_3 || \"x\"]; sc_n <- cast(null, integer); sc_b <- true; sc_d <- cast(\"2020-01-01\", date);",
-        "DS_r <- DS_1[sub Id_2 = \"a0\"]; DS_c <- count(DS_1 group by Id_1);", "sc_only <- 3 * 4;"])
+        "DS_r <- DS_1[calc Me_10 := Me_3 || \"x\"]; sc_n <- cast(null, integer); sc_b <- true; sc_d <- cast(\"2020-01-01\", date);",
+        "DS_r <- DS_1[sub Id_2 = \"a0\"]; DS_c <- count(DS_1 group by Id_1);", "sc_only <- 3 * 4;",
+        "DS_r <- DS_1[keep Me_6, Me_9]; sc_zero <- 1 - 1; sc_false <- 1 > 2; sc_z2 <- 0.0 * 3; sc_empty <- \"\" || \"\"; sc_one <- 1;",
+        "sc_zero <- 0; sc_false <- false; sc_true <- true; sc_neg <- 0 - 5;"])
     return {"rows": [list(r) for r in rows], "script": script, "fmt": rng.choice(["csv", "parquet"]), "rop": rng.random() < 0.5,
             "tp": rng.choice(["vtl", "sdmx_reporting", "natural"])}
 
